@@ -275,3 +275,21 @@ def r5(ctx):
     a = [core(x) for x in args_of(b, t)]
     ok = a[0][0] == 'field' and a[0][2] == 'input' and a[1][0] == 'field' and a[1][2] == 'target' and nosite(a[0][1]) == nosite(a[1][1])
     ctx.require(ok, b, 'label-args', 'labels = operations(item.input, item.target, ..)', 'labels = operations(%s, %s)' % (show_in(b, a[0]), show_in(b, a[1])), t.span)
+    # the label vector is -1 x prefix, then ONE label per operation of that call, then -1 x suffix -- on every path (no shortcut
+    # that invents labels without aligning input and target)
+    from analysis.seq import seq_of, ITEM
+    oks = [v for v, blk in ret_values(b) if v[0] == 'agg' and v[2].endswith('Result::Ok')]
+    lab = None
+    for v in oks:
+        for x in walk(v):
+            if isinstance(x, tuple) and x and x[0] == 'agg' and x[1] == 'adt' and x[2].endswith('SequenceClassification'):
+                from analysis.sym import agg_field
+                lab = agg_field(ctx.facts, x, 'labels')
+    if lab is None:
+        raise AnchorMissing('the labels field of the SequenceClassification input')
+    segs = seq_of(ctx.facts, b, lab)
+    opcall = nosite(sym(b, t.dest))
+    ok = segs is not None and len(segs) == 3 and segs[0].kind == 'repeat' and segs[2].kind == 'repeat' and segs[1].kind == 'each' and not segs[1].conds and \
+        nosite(peel(segs[1].src, unwrap=True)) == opcall and (core(segs[1].elem) == ITEM or (core(segs[1].elem)[0] == 'discr' and core(segs[1].elem)[1] == ITEM))
+    ctx.require(ok, b, 'label-sequence', 'labels = -1 x prefix ++ operations(input, target) ++ -1 x suffix on every path',
+                'labels are built as %s: they must be the operations of the (input, target) alignment, not a shortcut' % [repr(x)[:120] for x in segs or ()], t.span)
